@@ -56,6 +56,8 @@ type tracker struct {
 	wantedSet   bool
 	answered    bool
 	lastStartTS uint64
+	recvs       int // payloads the library took in (received / refused for their index) during the current API call
+	expReplay   int // payloads cached for the height a Reset is about to initialise: each must be replayed
 	signs       int // block signatures requested since the last Start/Reset (one initialisation epoch)
 	fpBefore    string
 	effects     []string
@@ -586,6 +588,11 @@ func (m *monitor) processBlock(n *node, b *Block, fail bool) {
 }
 
 // noteReceive is called from the log hook for every (also nested) OnReceive that passes the index check.
+func (m *monitor) noteTaken(n *node) {
+	if m != nil && n.tr != nil {
+		n.tr.recvs++
+	}
+}
 func (m *monitor) noteReceive(n *node, typ int, from uint16, height uint32, view byte) {
 	if m == nil || n.tr == nil || !n.started {
 		return
@@ -626,9 +633,15 @@ func (m *monitor) before(n *node, desc string) {
 	t.roll(n.d.BlockIndex)
 	t.decidedAtOp, t.curDesc = t.decided, desc
 	t.inadmissible = ""
+	t.recvs, t.expReplay = 0, 0
 	if strings.HasPrefix(desc, "S ") || strings.HasPrefix(desc, "R ") {
 		fmt.Sscanf(desc[2:], "%d", &t.lastStartTS)
 		t.signs = 0
+	}
+	if strings.HasPrefix(desc, "R ") && n.started {
+		for _, byIdx := range n.d.VerifSnapshot().Cache[n.height+1] {
+			t.expReplay += len(byIdx)
+		}
 	}
 	if strings.HasPrefix(desc, "X ") && t.wantedSet {
 		// the obligation stands only while the node stays in the view of the proposal, is a backup that has
@@ -681,6 +694,23 @@ func (m *monitor) after(n *node, desc string) {
 		if len(d.Validators) != len(n.vals) {
 			m.nhit(n, "C05", "stale-validators", fmt.Sprintf("node %d after %s: validator list not refreshed", n.id, desc))
 		}
+		// what was kept for this height is handed to the node again, and a subscription is never inherited from an earlier height
+		if strings.HasPrefix(desc, "R ") && t.recvs < t.expReplay {
+			m.nhit(n, "C05", "kept-payloads-not-replayed", fmt.Sprintf("node %d after %s: %d payloads were kept for height %d, %d were replayed", n.id, desc, t.expReplay, d.BlockIndex, t.recvs))
+			m.tick("C17")
+			m.nhit(n, "C17", "kept-payloads-not-replayed", fmt.Sprintf("node %d after %s (the call the simulation makes after every block): %d payloads were kept for height %d, %d were replayed", n.id, desc, t.expReplay, d.BlockIndex, t.recvs))
+		}
+		if vs.TxSubscriptionOn {
+			sub := false
+			for _, e := range t.effects {
+				if e == "SUB" {
+					sub = true
+				}
+			}
+			if !sub {
+				m.nhit(n, "C05", "subscription-of-an-earlier-height", fmt.Sprintf("node %d after %s is subscribed for transactions without having subscribed in this call", n.id, desc))
+			}
+		}
 		// every per-validator table is taken afresh for the validator list of this height: one slot per validator
 		for name, l := range map[string]int{"PreparationPayloads": len(d.PreparationPayloads), "PreCommitPayloads": len(d.PreCommitPayloads),
 			"CommitPayloads": len(d.CommitPayloads), "ChangeViewPayloads": len(d.ChangeViewPayloads),
@@ -699,6 +729,13 @@ func (m *monitor) after(n *node, desc string) {
 					t.nilAt[uint16(from)] = true
 				}
 			}
+		}
+	}
+	if nv := len(d.Validators); nv > 0 && n.started {
+		m.tick("C06")
+		exp := ((int(d.BlockIndex)-int(d.ViewNumber))%nv + nv) % nv
+		if int(d.PrimaryIndex) != exp {
+			m.nhit(n, "C06", "cached-primary-index-wrong", fmt.Sprintf("node %d at (%d,%d) with %d validators holds PrimaryIndex %d, (h-v) mod N is %d", n.id, d.BlockIndex, d.ViewNumber, nv, d.PrimaryIndex, exp))
 		}
 	}
 	if !n.started {
